@@ -200,7 +200,7 @@ func streamPositions(ctx *Ctx) *Result {
 			wl, wc := 1+nb, pos-last
 			if got[k][0] != wl || got[k][1] != wc {
 				res.Fail(Failure{Kind: "oracle", Input: fmt.Sprintf("a source with newlines exactly at offsets %v; positions looked up in this order on one program: %v", lfs, poss),
-					Impl: fmt.Sprintf("lookup %d (offset %d) gives %d:%d", k+1, pos, got[k][0], got[k][1]),
+					Impl:     fmt.Sprintf("lookup %d (offset %d) gives %d:%d", k+1, pos, got[k][0], got[k][1]),
 					Expected: fmt.Sprintf("%d:%d (line = 1 + newlines before the offset, column = distance from the preceding newline)", wl, wc)})
 				return
 			}
@@ -400,7 +400,7 @@ func streamWF(ctx *Ctx) *Result {
 			btos, _ := strconv.Atoi(xs[1])
 			if tos > maxd || btos > maxb {
 				res.Fail(Failure{Kind: "oracle", Op: "WF " + dump, Input: trunc(string(src), 2000),
-					Impl: fmt.Sprintf("executed path reached operand depth %d / block depth %d", tos, btos),
+					Impl:     fmt.Sprintf("executed path reached operand depth %d / block depth %d", tos, btos),
 					Expected: fmt.Sprintf("within the verifier's maxima %d / %d", maxd, maxb)})
 			}
 		}
@@ -488,7 +488,8 @@ func streamMutants(ctx *Ctx) *Result {
 		if len(toks) > 60 {
 			toks = toks[:60]
 		}
-		lay := &Layout{r: r}
+		// half of the sentences under exotic layout: comments ended by CR or LF, U+0085, U+00A0 …
+		lay := &Layout{r: r, Fancy: i%2 == 0}
 		base := []byte(lay.Join(toks))
 		baseAcc, ok := oracle(base)
 		if !ok {
@@ -646,14 +647,7 @@ func streamOptions(ctx *Ctx) *Result {
 		}
 		return outcome{out.String(), log.String(), fmt.Sprintf("err=%q blocks=%s binding=%s", e, fmtBlocks(res1), fmtBinding(b1))}
 	}
-	parallel(ctx.Pool, ctx.Seed, ctx.N(800), func(i int, r *rand.Rand, d *Driver) {
-		g := NewGen(r)
-		g.MaxDepth = 1 + r.Intn(4)
-		// strings that look like option output would make the subsequence test ambiguous: none of the
-		// generator's literals starts with four digits, thirteen spaces, "==", "pstats." or "xstats.",
-		// and here none contains a line break (the disassembly prints constants raw)
-		g.OneLineStrings = true
-		src := []byte(Render(g.Program(1+r.Intn(6)), r, false))
+	checkOne := func(i int, d *Driver, src []byte, withModel bool) {
 		v := guarded(opTimeout, func() string {
 			plain := runOpts(src, false, false, false)
 			plainLines := strings.SplitAfter(plain.out, "\n")
@@ -735,10 +729,37 @@ func streamOptions(ctx *Ctx) *Result {
 			res.Nontrivial(string(src))
 		}
 		// the whole text of disassembly, trace and statistics against the model
-		diffParseRun(res, d, src, true)
+		if withModel {
+			diffParseRun(res, d, src, true)
+		}
 		if i < 2 {
 			res.Sample(trunc(string(src), 300))
 		}
+	}
+	parallel(ctx.Pool, ctx.Seed, ctx.N(800), func(i int, r *rand.Rand, d *Driver) {
+		g := NewGen(r)
+		g.MaxDepth = 1 + r.Intn(4)
+		// strings that look like option output would make the subsequence test ambiguous: none of the
+		// generator's literals starts with four digits, thirteen spaces, "==", "pstats." or "xstats.",
+		// and here none contains a line break (the disassembly prints constants raw)
+		g.OneLineStrings = true
+		checkOne(i, d, []byte(Render(g.Program(1+r.Intn(6)), r, false)), true)
+	})
+	// operands beyond one byte (disassembly and trace must stay in step with the code) …
+	parallel(ctx.Pool, ctx.Seed+17, ctx.N(40), func(i int, r *rand.Rand, d *Driver) {
+		checkOne(100+i, d, []byte(WideProgram(r)), true)
+		res.Count("wide", 1)
+	})
+	// … and programs that fail at the limits while being traced
+	var lim []string
+	for _, s := range limitLadder() {
+		if len(s) < 16000 {
+			lim = append(lim, s)
+		}
+	}
+	parallel(ctx.Pool, ctx.Seed+19, len(lim), func(i int, r *rand.Rand, d *Driver) {
+		checkOne(100+i, d, []byte(lim[i]), true)
+		res.Count("limit-ladder", 1)
 	})
 	return res
 }
